@@ -271,9 +271,11 @@ func (c *Conn) OpenUpstream(ctx context.Context, sessionID string, opts ...Upstr
 	upconf.SessionID = sessionID
 
 	var resp *message.UpstreamOpenResponse
+	var outages uint64
 	err := c.send(ctx, func(ctx context.Context) error {
 		c.wireConnMu.Lock()
 		defer c.wireConnMu.Unlock()
+		outages = c.state.Outages()
 		r, err := c.wireConn.SendUpstreamOpenRequest(ctx, &message.UpstreamOpenRequest{
 			SessionID:      upconf.SessionID,
 			AckInterval:    *upconf.AckInterval,
@@ -338,6 +340,7 @@ func (c *Conn) OpenUpstream(ctx context.Context, sessionID string, opts ...Upstr
 		eventDispatcher:      newEventDispatcher(),
 
 		connState:               c.state,
+		connOutages:             outages,
 		explicitlyFlushCh:       make(chan (<-chan struct{})),
 		explicitlyFlushResultCh: make(chan error),
 		Config:                  upconf,
@@ -380,6 +383,7 @@ func (c *Conn) OpenUpstream(ctx context.Context, sessionID string, opts ...Upstr
 					return
 				}
 
+				u.connOutages = c.state.Outages()
 				if err := u.resume(c.wireConn); err != nil {
 					u.logger.Errorf(ctx, "failed to resume upstream: %+v", err)
 					return
@@ -422,7 +426,9 @@ func (c *Conn) OpenDownstream(ctx context.Context, filters []*message.Downstream
 	}
 	alias := c.downstreamIDGenerator.Next()
 
+	var outages uint64
 	err = c.send(ctx, func(ctx context.Context) error {
+		outages = c.state.Outages()
 		c.wireConnMu.Lock()
 		dpsCh, err = c.wireConn.SubscribeDownstreamChunk(ctx, alias, downconf.QoS)
 		c.wireConnMu.Unlock()
@@ -503,6 +509,8 @@ func (c *Conn) OpenDownstream(ctx context.Context, filters []*message.Downstream
 		connStatus: c.state,
 		state:      newStreamState(),
 		Config:     downconf,
+
+		connOutages: outages,
 	}
 	go func() {
 		defer c.state.cond.Broadcast()
@@ -539,6 +547,7 @@ func (c *Conn) OpenDownstream(ctx context.Context, filters []*message.Downstream
 					return
 				}
 
+				down.connOutages = c.state.Outages()
 				if err := down.resume(c); err != nil {
 					down.logger.Errorf(ctx, "Failed to resume downstream: %+v", err)
 					return
